@@ -200,6 +200,8 @@ def _vocab():
         import os
 
         p = os.path.join(os.path.dirname(__file__), "vocab.json")
+        if os.environ.get("NSLSA_NO_VOCAB"):
+            p = os.devnull  # used by tools/twinsweep.py to measure the rules without the convenience layer
         try:
             _VOCAB = json.load(open(p))
         except Exception:
